@@ -53,6 +53,7 @@ class Leaf(object):
     def __init__(self, op, coq, dom, ran, lin, func, fn, kind):
         self.op, self.coq, self.dom, self.ran = op, coq, dom, ran     # ran: int or 'F'
         self.lin, self.func, self.fn, self.kind = lin, func, fn, kind  # fn: exact reference function
+        self.alias_safe, self.fresh = True, True   # memory contract: in-place call alias-safe / result fresh
 
 
 _CLS = {}
@@ -100,6 +101,64 @@ def _classes():
         _CLS['aff_' + style] = AffOp
         _CLS['sq_' + style] = SqOp
         _CLS['mat_' + style] = MatOp
+
+    for style in ('ip', 'both'):
+        class StencilOp(odl.Operator):
+            """x -> tridiag(a, b, c) x written entry by entry: the in-place call is NOT alias-safe."""
+            def __init__(self, sp, a, b, c):
+                odl.Operator.__init__(self, sp, sp, linear=True)
+                self.a, self.b, self.c = a, b, c
+
+            def fill(self, x, out):
+                n = x.size
+                for i in range(n):
+                    v = self.b * x[i]
+                    if i > 0:
+                        v = v + self.a * x[i - 1]
+                    if i < n - 1:
+                        v = v + self.c * x[i + 1]
+                    out[i] = v
+
+        class NStencilOp(odl.Operator):
+            """x_i -> x_i * x_{i-1} + b_i (x_{-1} = 0), loop style, nonlinear, NOT alias-safe in place."""
+            def __init__(self, sp, b):
+                odl.Operator.__init__(self, sp, sp, linear=False)
+                self.bb = b
+
+            def fill(self, x, out):
+                for i in range(x.size):
+                    out[i] = (x[i] * x[i - 1] if i > 0 else 0 * x[i]) + self.bb[i]
+        for cls_ in (StencilOp, NStencilOp):
+            if style == 'ip':
+                def _call(self, x, out):
+                    self.fill(x, out)
+            else:
+                def _call(self, x, out=None):
+                    if out is None:
+                        out = self.range.element()
+                        self.fill(x, out)
+                        return out
+                    self.fill(x, out)
+            cls_._call = _call
+        _CLS['stencil_' + style] = StencilOp
+        _CLS['nstencil_' + style] = NStencilOp
+
+    class RetX(odl.Operator):
+        """identity whose out-of-place result IS the input object."""
+        def __init__(self, sp, linear):
+            odl.Operator.__init__(self, sp, sp, linear=linear)
+
+        def _call(self, x):
+            return x
+
+    class ViewX(odl.Operator):
+        """identity whose out-of-place result is a VIEW of the input's memory."""
+        def __init__(self, sp):
+            odl.Operator.__init__(self, sp, sp, linear=True)
+
+        def _call(self, x):
+            return x.asarray()[:]
+    _CLS.update(RetX=RetX, ViewX=ViewX)
 
     class LinFunc(odl.solvers.Functional):
         def __init__(self, sp, w):
@@ -237,7 +296,10 @@ class CF(object):
         return max(abs(self.re), abs(self.im))
 
     def dyadic(self):
-        return all(d & (d - 1) == 0 and d <= 2 ** 30 for d in (self.re.denominator, self.im.denominator))
+        # dyadic with at most 26 significant bits: then every product of two tracked values (and every
+        # sum of a few) is exact in float64, whatever order the implementation evaluates in
+        return all(d & (d - 1) == 0 and abs(n).bit_length() <= 26
+                   for n, d in ((self.re.numerator, self.re.denominator), (self.im.numerator, self.im.denominator)))
 
     def absr(self):
         assert self.im == 0
@@ -245,6 +307,9 @@ class CF(object):
 
     def c(self):
         return complex(float(self.re), float(self.im))
+
+
+SPECIAL_KINDS = ('stencil', 'nstencil', 'retx', 'retx_nl', 'viewx', 'realpart', 'pderiv', 'lap')
 
 
 def make_leaf(ctx, dom, ran, want=None):
@@ -266,14 +331,29 @@ def make_leaf(ctx, dom, ran, want=None):
         kinds = ['mat', 'aff']
         if dom == ran:
             kinds += ['scal', 'ident', 'zero', 'mulv', 'sq', 'pow2', 'cube'] + ([] if ctx.cplx else ['abs'])
+            # leaves with weak memory contracts: not alias-safe in place / result aliases the input
+            kinds += ['stencil', 'nstencil', 'retx', 'retx_nl', 'viewx', 'realpart', 'pderiv', 'lap']
         if want == 'lin':
-            kinds = [k for k in kinds if k in ('mat', 'scal', 'ident', 'zero', 'mulv')]
+            kinds = [k for k in kinds if k in ('mat', 'scal', 'ident', 'zero', 'mulv', 'stencil', 'retx', 'viewx',
+                                               'realpart', 'pderiv', 'lap')]
         if want == 'nonlin':
-            kinds = [k for k in kinds if k in ('aff', 'sq', 'pow2', 'cube', 'abs')]
+            kinds = [k for k in kinds if k in ('aff', 'sq', 'pow2', 'cube', 'abs', 'nstencil', 'retx_nl')]
+        if want in SPECIAL_KINDS:
+            kinds = [want]
         k = r.choice(kinds)
+        if k == 'lap':
+            # odl.Laplacian's in-place call starts with out.set_zero(), which keeps NaN on small spaces
+            # (0*NaN; known C01/C03 finding): it violates the leaf contract for a NaN-filled `out`, so the
+            # pool uses PartialDerivative (same non-alias-safe stencil code) instead
+            k = 'pderiv'
+        if k == 'pderiv' and (ctx.kind != 'discr' or dom < 2):
+            k = 'stencil'
+        if k == 'realpart' and ctx.cplx:
+            k = 'retx'
         spec = {'kind': k, 'dom': dom, 'ran': ran, 'style': style, 'builtin': r.random() < 0.5,
                 'M': [ctx.ivec(dom, -2, 2) for _ in range(ran)], 'b': ctx.ivec(ran, -2, 2),
-                'v': ctx.ivec(dom), 'c': ctx.num()}
+                'v': ctx.ivec(dom), 'c': ctx.num(), 'abc': [ctx.num(small=True) for _ in range(3)],
+                'method': r.choice(['backward', 'central'])}
     return leaf_from_spec(ctx, spec)
 
 
@@ -327,6 +407,59 @@ def leaf_from_spec(ctx, spec):
         ctx.leaves.append(lf)
         return lf
     rsp = ctx.space(ran)
+    if k in SPECIAL_KINDS:
+        st = style if style in ('ip', 'both') else 'ip'
+        safe, fresh = True, True
+        if k == 'stencil':
+            a, b, c = spec['abc']
+            op = K['stencil_' + st](sp, a, b, c)
+            M = [[(a if j == i - 1 else b if j == i else c if j == i + 1 else 0) for j in range(dom)]
+                 for i in range(dom)]
+            safe = dom == 1
+        elif k == 'nstencil':
+            b = spec['b']
+            op = K['nstencil_' + st](sp, np.array(b, dtype=dt))
+            fb = [fr(u) for u in b]
+            lf = Leaf(op, '(%sNSt %d %d %s)' % (p, i, dom, ctx.qs(b)), dom, ran, False, False,
+                      lambda x: [(x[j] * x[j - 1] if j > 0 else CF(Fraction(0))) + fb[j] for j in range(len(x))], k)
+            lf.alias_safe, lf.fresh = dom == 1, True
+            lf.spec, lf.index = spec, i
+            ctx.leaves.append(lf)
+            return lf
+        elif k in ('retx', 'retx_nl'):
+            op = K['RetX'](sp, k == 'retx')
+            M = [[1 if a_ == b_ else 0 for b_ in range(dom)] for a_ in range(dom)]
+            fresh = False
+        elif k == 'viewx':
+            op = K['ViewX'](sp)
+            M = [[1 if a_ == b_ else 0 for b_ in range(dom)] for a_ in range(dom)]
+            fresh = False
+        elif k == 'realpart':
+            op = odl.RealPart(sp)
+            M = [[1 if a_ == b_ else 0 for b_ in range(dom)] for a_ in range(dom)]
+            fresh = False
+        else:
+            op = (odl.PartialDerivative(sp, 0, method=spec['method'], pad_mode='constant') if k == 'pderiv'
+                  else odl.Laplacian(sp))
+            cols = []
+            for j in range(dom):
+                e = [0.0] * dom
+                e[j] = 1.0
+                cols.append(flat(ctx, op(sp.element(e))))
+            M = [[cols[j][i_] for j in range(dom)] for i_ in range(dom)]
+            safe = False
+        fM = [[fr(u) for u in row] for row in M]
+        if k == 'retx_nl':
+            z = [0] * dom
+            lf = Leaf(op, '(%sAff %d %d %s %s)' % (p, i, dom, ctx.qss(M), ctx.qs(z)), dom, ran, False, False,
+                      lambda x: [vsum([a_ * u for a_, u in zip(row, x)]) for row in fM], k)
+        else:
+            lf = Leaf(op, '(%sMat %d %d %s)' % (p, i, dom, ctx.qss(M)), dom, ran, True, False,
+                      lambda x: [vsum([a_ * u for a_, u in zip(row, x)]) for row in fM], k)
+        lf.alias_safe, lf.fresh = safe, fresh
+        lf.spec, lf.index = spec, i
+        ctx.leaves.append(lf)
+        return lf
     if k in ('mat', 'scal', 'ident', 'zero', 'mulv', 'aff'):
         c, v = spec['c'], spec['v']
         if k == 'mat' or k == 'aff':
@@ -394,17 +527,23 @@ def freeze(t):
 def thaw(ctx, ft, made=None):
     """Inverse of freeze: rebuild the leaves (shared ones once) inside ctx."""
     made = {} if made is None else made
+    key = ('node', repr(ft))
+    if key in made:
+        return made[key]
     k = ft[0]
     if k == 'leaf':
         if ft[1] not in made:
             made[ft[1]] = leaf_from_spec(ctx, ft[2])
-        return ('leaf', made[ft[1]])
-    if k in ('const', 'zerof'):
-        return ft
-    if k in ('add', 'sub', 'mul', 'matmul', 'ptw'):
+        res = ('leaf', made[ft[1]])
+    elif k in ('const', 'zerof'):
+        res = ft
+    elif k in ('add', 'sub', 'mul', 'matmul', 'ptw'):
         a = thaw(ctx, ft[1], made)
-        return (k, a, thaw(ctx, ft[2], made))
-    return (k, thaw(ctx, ft[1], made)) + tuple(ft[2:])
+        res = (k, a, thaw(ctx, ft[2], made))
+    else:
+        res = (k, thaw(ctx, ft[1], made)) + tuple(ft[2:])
+    made[key] = res
+    return res
 
 
 def vsum(xs):
@@ -418,7 +557,7 @@ def vsum(xs):
 DIMS = [1, 2, 3]
 
 
-def gen(ctx, depth, dom, ran, p_bad=0.0):
+def gen(ctx, depth, dom, ran, p_bad=0.0, pw=2):
     """Random AST of an expression dom -> ran (ran int or 'F').  Nodes:
     ('leaf', Leaf) ('const', dom, c) ('zerof', dom)
     ('add'|'sub'|'mul'|'matmul'|'ptw', a, b) ('neg', a) ('pow', a, n)
@@ -437,7 +576,7 @@ def gen(ctx, depth, dom, ran, p_bad=0.0):
              'mul', 'mulc', 'cmul', 'mulc']
     if ran != 'F':
         prods += ['addv', 'vadd', 'subv', 'vsub', 'ptw']
-        if dom == ran:
+        if dom == ran and pw > 0:      # at most two nested powers: cost and magnitudes grow as n**k
             prods += ['pow', 'pow']
     k = r.choice(prods)
     d1 = depth - 1
@@ -446,47 +585,49 @@ def gen(ctx, depth, dom, ran, p_bad=0.0):
         return r.choice([m for m in DIMS + [4] if m != n])
 
     if k in ('add', 'sub', 'ptw'):
-        a = gen(ctx, d1, dom, ran, p_bad)
+        a = gen(ctx, d1, dom, ran, p_bad, pw)
         bd, br = dom, ran
         if bad:
             if r.random() < 0.5:
                 bd = other_dim(dom)
             else:
                 br = (r.choice(DIMS) if ran == 'F' else r.choice([other_dim(ran), 'F']))
-        b = gen(ctx, r.randint(0, d1), bd, br, p_bad)
+        if not bad and r.random() < 0.15:
+            return (k, a, a)                     # the SAME sub-expression object used twice
+        b = gen(ctx, r.randint(0, d1), bd, br, p_bad, pw)
         return (k, a, b)
     if k == 'mul':
         mid = r.choice(DIMS)
-        a = gen(ctx, d1, mid, ran, p_bad)
-        b = gen(ctx, r.randint(0, d1), dom, other_dim(mid) if bad else mid, p_bad)
+        a = gen(ctx, d1, mid, ran, p_bad, pw)
+        b = gen(ctx, r.randint(0, d1), dom, other_dim(mid) if bad else mid, p_bad, pw)
         return (r.choice(['mul', 'mul', 'matmul']), a, b)
     if k == 'neg':
-        return ('neg', gen(ctx, d1, dom, ran, p_bad))
+        return ('neg', gen(ctx, d1, dom, ran, p_bad, pw))
     if k == 'pow':
-        n = r.choice([1, 2, 2, 3]) if not bad else r.choice([0, -1])
-        return ('pow', gen(ctx, d1, dom, ran, p_bad), n)
+        n = r.choice([1, 2, 2, 3, 3, 4]) if not bad else r.choice([0, -1])
+        return ('pow', gen(ctx, d1, dom, ran, p_bad, pw - 1), n)
     if k in ('addv', 'vadd', 'subv', 'vsub'):
         n = other_dim(ran) if bad else ran
-        return (k, gen(ctx, d1, dom, ran, p_bad), ctx.ivec(n))
+        return (k, gen(ctx, d1, dom, ran, p_bad, pw), ctx.ivec(n))
     if k == 'mulv':
         n = other_dim(dom) if bad else dom
-        return (r.choice(['mulv', 'mulv', 'matmulv']), gen(ctx, d1, dom, ran, p_bad), ctx.ivec(n))
+        return (r.choice(['mulv', 'mulv', 'matmulv']), gen(ctx, d1, dom, ran, p_bad, pw), ctx.ivec(n))
     if k == 'vmul':
         if ran == 'F':      # v * A never has a field range: use c * A instead
-            return ('cmul', gen(ctx, d1, dom, ran, p_bad), ctx.scalar())
+            return ('cmul', gen(ctx, d1, dom, ran, p_bad, pw), ctx.scalar())
         inner = 'F' if r.random() < 0.4 else ran
         n = other_dim(ran) if (bad and inner != 'F') else ran
-        return (r.choice(['vmul', 'vmul', 'vmatmul']), gen(ctx, d1, dom, inner, p_bad), ctx.ivec(n))
+        return (r.choice(['vmul', 'vmul', 'vmatmul']), gen(ctx, d1, dom, inner, p_bad, pw), ctx.ivec(n))
     if k in ('addc', 'cadd', 'subc', 'csub'):
-        return (k, gen(ctx, d1, dom, ran, p_bad), ctx.scalar())
+        return (k, gen(ctx, d1, dom, ran, p_bad, pw), ctx.scalar())
     if k in ('mulc', 'cmul'):
         kk = k if r.random() < 0.85 else 'matmulc'
-        return (kk, gen(ctx, d1, dom, ran, p_bad), ctx.scalar())
+        return (kk, gen(ctx, d1, dom, ran, p_bad, pw), ctx.scalar())
     if k == 'divc':
         c = r.choice([1, -1, 2, -2, 4, 0.5, -0.5, 2.0]) if not bad else 0
         if ctx.cplx and not bad and r.random() < 0.4:
             c = r.choice([1j, -1j, 2j, 1 + 1j])
-        return ('divc', gen(ctx, d1, dom, ran, p_bad), c)
+        return ('divc', gen(ctx, d1, dom, ran, p_bad, pw), c)
     raise AssertionError(k)
 
 
@@ -541,7 +682,14 @@ def size(t):
 
 
 def py_build(ctx, t):
-    """Apply the real overloads."""
+    """Apply the real overloads; an AST node object that occurs twice is built once (shared object)."""
+    memo = ctx.__dict__.setdefault('built', {})
+    if id(t) not in memo:
+        memo[id(t)] = (t, _py_build(ctx, t))
+    return memo[id(t)][1]
+
+
+def _py_build(ctx, t):
     import odl
     k = t[0]
     if k == 'leaf':
@@ -770,6 +918,11 @@ def flat(ctx, y):
     return [complex(u) if ctx.cplx else float(u) for u in a.tolist()]
 
 
+def kon_term(ctx):
+    """memory contract (result fresh?, in-place alias-safe?) of each leaf, indexed by l_id"""
+    return C.lst(['(%s, %s)' % (C.b(l.fresh), C.b(l.alias_safe)) for l in ctx.leaves])
+
+
 def run_case(ctx, t, npts=2):
     """Build with the real overloads, evaluate, and print the Coq case.  Returns (term, desc, key)."""
     import numpy as np
@@ -788,7 +941,7 @@ def run_case(ctx, t, npts=2):
         o, err = None, 'BOther'
     pre = 'check_cplx' if ctx.cplx else 'check_real'
     if err is not None:
-        term = '{| c_vt := vt_now; c_expr := %s; c_build := %s; c_points := [] |}' % (to_coq(ctx, t), err)
+        term = '{| c_vt := vt_now; c_kon := %s; c_expr := %s; c_build := %s; c_points := [] |}' % (kon_term(ctx), to_coq(ctx, t), err)
         return term, {'expr': src_skeleton(t), 'outcome': err, 'field': 'C' if ctx.cplx else 'R'}, \
             (err, src_skeleton(t)) if size(t) else None
     sk, name = skel(ctx, o, leafids)
@@ -812,8 +965,19 @@ def run_case(ctx, t, npts=2):
         else:
             continue
         xe = o.domain.element(x)
-        y = o(xe)
+        xbytes = np.asarray(xe).tobytes()
+        try:
+            y = o(xe)
+            if rr != 'F':
+                o(xe.copy(), out=o.range.element(np.full(rr, np.nan)))
+        except Exception as e:      # noqa -- an accepted expression must evaluate in and out of place
+            term = ('{| c_vt := vt_now; c_kon := %s; c_expr := %s; c_build := BOther; c_points := [] |}'
+                    % (kon_term(ctx), to_coq(ctx, t)))
+            return term, {'expr': src_skeleton(t), 'x': x,
+                          'outcome': 'evaluation raised %s: %s' % (type(e).__name__, str(e)[:120])}, \
+                ('raises', src_skeleton(t))
         out = flat(ctx, y)
+        out2 = flat(ctx, o(xe))                     # same point again: nothing may have been modified
         ip = 'None'
         nonfinite = not all(math.isfinite(abs(complex(u))) for u in out)
         if rr != 'F':
@@ -823,15 +987,23 @@ def run_case(ctx, t, npts=2):
             nonfinite = nonfinite or res is not buf or not all(math.isfinite(abs(complex(u))) for u in ipv)
             if not nonfinite:
                 ip = '(Some %s)' % ctx.qs(ipv)
+        out3 = flat(ctx, o(xe))                     # and once more after the in-place call
+        if np.asarray(xe).tobytes() != xbytes or repr(out2) != repr(out) or repr(out3) != repr(out):
+            term = '{| c_vt := vt_now; c_kon := %s; c_expr := %s; c_build := BOther; c_points := [] |}' % (kon_term(ctx), to_coq(ctx, t))
+            return term, {'expr': src_skeleton(t), 'x': x, 'first': out, 'second': out2, 'after_inplace': out3,
+                          'outcome': 'evaluation is not repeatable or x was modified',
+                          'x_after': flat(ctx, xe)}, ('unstable', src_skeleton(t))
         if nonfinite:
             # NaN/inf (e.g. the NaN-filled `out` leaking into the result) has no rational literal:
             # report the case as failing instead of crashing
-            term = '{| c_vt := vt_now; c_expr := %s; c_build := BOther; c_points := [] |}' % to_coq(ctx, t)
+            term = '{| c_vt := vt_now; c_kon := %s; c_expr := %s; c_build := BOther; c_points := [] |}' % (kon_term(ctx), to_coq(ctx, t))
             return term, {'expr': src_skeleton(t), 'outcome': 'non-finite value or `out` not returned', 'x': x}, \
                 ('nonfinite', src_skeleton(t))
-        pts.append('{| p_x := %s; p_out := %s; p_ip := %s |}' % (ctx.qs(x), ctx.qs(out), ip))
-    term = ('{| c_vt := vt_now; c_expr := %s; c_build := BOk %s %s %s %s %s; c_points := %s |}'
-            % (to_coq(ctx, t), sk, dterm, rterm, C.b(bool(o.is_linear)), C.b(isinstance(o, Functional)),
+        shares = bool(rr != 'F' and np.shares_memory(np.asarray(y), np.asarray(xe)))
+        pts.append('{| p_x := %s; p_out := %s; p_ip := %s; p_alias := %s |}'
+                   % (ctx.qs(x), ctx.qs(out), ip, C.b(shares)))
+    term = ('{| c_vt := vt_now; c_kon := %s; c_expr := %s; c_build := BOk %s %s %s %s %s; c_points := %s |}'
+            % (kon_term(ctx), to_coq(ctx, t), sk, dterm, rterm, C.b(bool(o.is_linear)), C.b(isinstance(o, Functional)),
                C.lst(pts)))
     desc = {'expr': src_skeleton(t), 'built': name, 'is_linear': bool(o.is_linear), 'points': len(pts),
             'field': 'C' if ctx.cplx else 'R', 'space': ctx.kind}
@@ -885,6 +1057,15 @@ def correspondence(rng, tier):
                     t2 = thaw(c2, freeze(t))
                     term, desc, key = run_case(c2, t2, npts=1)
                     cset.add(term, desc, key)
+    # memory-contract patterns on every space kind (leaves that are not alias-safe / alias their input)
+    for cplx, cset in ((False, cs),):
+        for kind in ('rn', 'discr', 'wrn'):
+            ctx0 = Ctx(rng, cplx, kind)
+            for t in _memory_trees(ctx0):
+                c2 = Ctx(rng, cplx, kind)
+                t2 = thaw(c2, freeze(t))
+                term, desc, key = run_case(c2, t2, npts=2)
+                cset.add(term, desc, key)
     cc = C.CaseSet('complex', ['Base.Vec', 'C04.Model', 'C04.Cplx', 'C04.Corr'], 'check_cplx', 'case QC',
                    prelude=prelude)
     for i in range(n // 3):
@@ -894,6 +1075,13 @@ def correspondence(rng, tier):
         t = gen(ctx, depth, rng.choice(DIMS), ran, p_bad=0.03)
         term, desc, key = run_case(ctx, t, npts=2)
         cc.add(term, desc, key)
+    for kind in ('rn', 'discr'):
+        ctx0 = Ctx(rng, True, kind)
+        for t in _memory_trees(ctx0):
+            c2 = Ctx(rng, True, kind)
+            t2 = thaw(c2, freeze(t))
+            term, desc, key = run_case(c2, t2, npts=2)
+            cc.add(term, desc, key)
     return [cs, cc]
 
 
@@ -923,6 +1111,15 @@ def _close(ctx, got, want, exact, scale=0.0):
             if abs(g - wc) > 1e-9 * (1 + abs(wc) + scale):   # scale: largest intermediate (cancellation)
                 return False
     return True
+
+
+def leaves_of(t):
+    if t[0] == 'leaf':
+        return [t[1]]
+    out = []
+    for c in _children(t):
+        out += leaves_of(c)
+    return out
 
 
 def oracle_node(ctx, t, xs):
@@ -955,6 +1152,14 @@ def oracle_node(ctx, t, xs):
         return ('domain-range', 'implied %s->%s, built %s->%s' % (d, r, dd, rr))
     if lin and not o.is_linear:
         return ('flag-not-linear', 'implied linear, is_linear=False')
+    try:
+        return _oracle_values(ctx, t, o, xs, d, rr)
+    except Exception as e:      # noqa
+        return ('evaluation-raises', '%s: %s' % (type(e).__name__, str(e)[:160]))
+
+
+def _oracle_values(ctx, t, o, xs, d, rr):
+    import numpy as np
     for x in xs:
         if len(x) != d:
             continue
@@ -965,6 +1170,7 @@ def oracle_node(ctx, t, xs):
             continue            # float overflow territory: out of scope (exact-arithmetic idealisation)
         xe = o.domain.element(x)
         xcopy = xe.copy()
+        xbytes = np.asarray(xe).tobytes()
         got = flat(ctx, o(xe))
         scale = 0.0 if exact else float(track[0])
         if not _close(ctx, got, want, exact, scale):
@@ -974,9 +1180,13 @@ def oracle_node(ctx, t, xs):
             res = o(xe, out=buf)
             if res is not buf or not _close(ctx, flat(ctx, buf), want, exact, scale):
                 return ('value-inplace', 'x=%r got %r expected %r' % (x, flat(ctx, buf), [w.c() for w in want]))
-        if flat(ctx, xe) != flat(ctx, xcopy):
+        again = flat(ctx, o(xe))
+        if not _close(ctx, again, want, exact, scale):
+            return ('value-second-evaluation', 'x=%r second call got %r expected %r'
+                    % (x, again, [w.c() for w in want]))
+        if np.asarray(xe).tobytes() != xbytes:
             return ('mutates-x', 'x=%r became %r' % (x, flat(ctx, xe)))
-        if rr != 'F' and o.domain == o.range:
+        if rr != 'F' and o.domain == o.range and all(l.alias_safe for l in leaves_of(t)):
             # `out` aliased to the input: the in-place bodies route through temporaries for this
             xa = xe.copy()
             res = o(xa, out=xa)
@@ -1091,6 +1301,27 @@ def _fixed_trees(ctx):
                 ('mul', f(), ('mulc', A('nonlin'), a)), ('mulc', ('mul', f(), A()), a),
                 ('add', f(), ('const', 2, a)), ('add', ('const', 2, a), ('zerof', 2)),
                 ('mulc', ('const', 2, a), b), ('cmul', ('zerof', 2), b), ('mulc', ('zerof', 2), 0)]
+    return out
+
+
+def _memory_trees(ctx):
+    """Patterns that are only wrong when a leaf is not alias-safe in place, or returns (a view of) its
+    input out of place: powers n = 3, 4 (nested compositions, evaluated in place), a sub-expression used
+    twice, left multiplications / sums on top of input-aliasing leaves."""
+    out = []
+    for kind in SPECIAL_KINDS:
+        A = ('leaf', make_leaf(ctx, 2, 2, kind))
+        B = ('leaf', make_leaf(ctx, 2, 2, kind))
+        a, v, w = ctx.num(small=True), ctx.ivec(2), ctx.ivec(2)
+        S = ('vmul', A, v)
+        out += [('pow', A, 3), ('pow', A, 4), ('pow', ('cmul', A, a), 3), ('pow', ('vmul', A, v), 3),
+                ('pow', ('addv', A, w), 4), ('mul', ('pow', A, 3), B), ('pow', ('mul', A, B), 3),
+                ('mul', A, ('mul', A, A)), ('mul', ('mul', A, A), A),
+                S, ('add', S, A), ('add', A, S), ('add', S, S), ('sub', ('cmul', A, a), A), ('ptw', A, A),
+                ('ptw', S, A), ('addv', A, w), ('vadd', A, w), ('subv', S, w), ('cmul', A, a), ('neg', A),
+                ('mulc', A, a), ('mulv', A, v), ('vmul', ('mul', A, A), v), ('vmul', ('vmul', A, v), w),
+                ('add', ('cmul', A, a), ('vmul', A, v)), ('vmul', ('leaf', make_leaf(ctx, 2, 'F')), v),
+                ('add', ('mul', A, B), ('mul', B, A)), ('mul', S, S)]
     return out
 
 
@@ -1216,6 +1447,12 @@ def probes(rng, tier):
             for t in _fixed_trees(ctx):
                 xs = [ctx.ivec(2, -2, 2) for _ in range(2)]
                 out.append(_tree_probe(ctx, t, xs, 'fixed interaction pattern vs reference interpreter'))
+    for cplx in (False, True):
+        for kind in ('rn', 'discr', 'wrn'):
+            ctx = Ctx(rng, cplx, kind)
+            for t in _memory_trees(ctx):
+                xs = [ctx.ivec(2, -2, 2) for _ in range(2)]
+                out.append(_tree_probe(ctx, t, xs, 'memory-contract pattern vs reference interpreter'))
     # 2b. operand kinds outside the syntax must be rejected with TypeError (no silent garbage)
     import numpy as np
     r2 = odl.rn(2)
